@@ -41,7 +41,7 @@ J
 # the other configurations the histories switch to (build tags, ABI modes,
 # LLGO_TRACE: each is part of every package's cache key, the runtime's too):
 # warm them side by side, so that a world's first build under them costs seconds
-c13warm() { ( cd "$C13/warmprog" && c13env env $3 "$C13/llgo" build -tags "$1" -abi "$2" -o "$C13/warmprog/out-$4" . ) >>"$C13/warm.log" 2>&1; }
+c13warm() { ( cd "$C13/warmprog" && c13env env $3 "$C13/llgo" build ${5:-} -tags "$1" -abi "$2" -o "$C13/warmprog/out-$4" . ) >>"$C13/warm.log" 2>&1; }
 c13warm verifbase,alt 2 A=1 1 &
 c13warm verifbase 1 A=1 2 &
 c13warm verifbase 0 A=1 3 &
@@ -49,6 +49,8 @@ c13warm verifbase,alt 1 A=1 4 &
 c13warm verifbase,alt 0 A=1 5 &
 c13warm verifbase 2 LLGO_TRACE=1 6 &
 c13warm verifbase,alt 2 LLGO_TRACE=1 7 &
+c13warm verifbase 2 A=1 8 -O0 &
+c13warm verifbase 2 A=1 9 -Oz &
 wait
 case " ${ARGS[*]} ${VERIF_TIER:-} " in *thorough*)
   export VERIF_C13_EMBED=1
